@@ -37,6 +37,9 @@ pub struct CountChain<T> {
     pub special: bool,
     /// fault: the chain's code panics in the transition that would make `n` this value
     pub panic_at: Option<u64>,
+    /// fault: from this transition on the chain shows a state that is one coordinate short (a statistics
+    /// tracker refuses it: the error path of the progress protocol)
+    pub shrink_at: Option<u64>,
 }
 
 pub trait Cell: Clone + Send + 'static {
@@ -88,12 +91,13 @@ impl Cell for usize {
 
 impl<T: Cell> CountChain<T> {
     pub fn new(id: u64, dim: usize) -> Self {
-        let mut c = CountChain { id, n: 0, dim, state: vec![], inner_points: 0, special: false, panic_at: None };
+        let mut c = CountChain { id, n: 0, dim, state: vec![], inner_points: 0, special: false, panic_at: None, shrink_at: None };
         c.render();
         c
     }
     fn render(&mut self) {
-        self.state = (0..self.dim)
+        let dim = if self.shrink_at.map(|k| self.n >= k).unwrap_or(false) { self.dim.saturating_sub(1) } else { self.dim };
+        self.state = (0..dim)
             .map(|j| {
                 if self.special {
                     if let Some(v) = special_cell(self.id, self.n, j, self.dim).and_then(T::of_special) {
